@@ -9,7 +9,11 @@
  * MODE 4 ?ReadValues: the exact field text (D replaced by E) reaches the converter, in order
  * atoi is a reference implementation in the harness; atof is a recording stub (decimal->binary accuracy is libc's business).
  */
+#ifdef CPLX
+#include "slu_mt_zdefs.h"
+#else
 #include "slu_mt_ddefs.h"
+#endif
 #include "vh.h"
 int vh_log_i; double vh_log_d;
 #include "env_stubs.h"
@@ -22,7 +26,11 @@ int vh_log_i; double vh_log_d;
 extern int_t dParseIntFormat(char *, int_t *, int_t *);
 extern int_t dParseFloatFormat(char *, int_t *, int_t *);
 extern int_t VECFN(FILE *, int_t, int_t *, int_t, int_t);
+#ifdef CPLX
+extern int_t dReadValues(FILE *, int_t, doublecomplex *, int_t, int_t);
+#else
 extern int_t dReadValues(FILE *, int_t, double *, int_t, int_t);
+#endif
 int_t sp_ienv(int_t i) { return 1; }
 
 /* ---- in-memory stream: fgets hands out the prepared lines one after the other ---- */
@@ -52,7 +60,7 @@ int atoi(const char *s)
 }
 #endif
 /* ---- recording converter ---- */
-#define MAXF 6
+#define MAXF 10
 static char seen[MAXF][8];
 static int nseen;
 double atof(const char *s)
@@ -60,7 +68,8 @@ double atof(const char *s)
     int k;
     vh_assert(nseen < MAXF, "not more conversions than fields");
     if (nseen < MAXF) { for (k = 0; k < 7 && s[k]; ++k) seen[nseen][k] = s[k]; seen[nseen][k] = 0; }
-    return (double)(nseen++);
+    /* k + 2^-40: exact in double, not representable in float (a value narrowed on its way is detected) */
+    return (double)(nseen++) + 1.0 / 1099511627776.0;
 }
 static int put(char *b, int pos, int v) { if (v >= 10) b[pos++] = (char)('0' + v / 10); b[pos++] = (char)('0' + v % 10); return pos; }
 
@@ -91,7 +100,12 @@ VH_MAIN
     vh_assert(size == w, "field width of the edit descriptor");
 #else
     /* n items, perline per line, persize characters each */
+#ifdef CPLX
+    int nz = vh_int_in(1, 2), n = 2 * nz;      /* nz complex entries = n real fields (real part, imaginary part) */
+    int perline = vh_int_in(1, 3), persize = vh_int_in(2, 5), i, j, k, item = 0;
+#else
     int n = vh_int_in(1, 4), perline = vh_int_in(1, 3), persize = vh_int_in(2, 5), i, j, k, item = 0;
+#endif
     static int val[4]; static char field[4][8];
     vh_assume(perline * persize < LINELEN - 1);
     nlines = (n + perline - 1) / perline;
@@ -127,11 +141,18 @@ VH_MAIN
         VECFN((FILE *)0, n, where, perline, persize);
         for (i = 0; i < 4; ++i) if (i < n) vh_assert(where[i] == val[i] - 1, "every integer field is converted and stored 0-based, in file order");
 #else
+#ifdef CPLX
+        static doublecomplex zdest[2];
+        double dest[4];
+        dReadValues((FILE *)0, nz, zdest, perline, persize);
+        for (i = 0; i < 2; ++i) { dest[2 * i] = zdest[i].r; dest[2 * i + 1] = zdest[i].i; }
+#else
         static double dest[4];
         dReadValues((FILE *)0, n, dest, perline, persize);
+#endif
         vh_assert(nseen == n, "one conversion per value");
         for (i = 0; i < 4; ++i) if (i < n) {
-            vh_assert(dest[i] == (double)i, "values stored in file order");
+            vh_assert(dest[i] == (double)i + 1.0 / 1099511627776.0, "values stored in file order, unchanged");
             for (k = 0; k < 6; ++k) if (k <= persize) vh_assert(seen[i][k] == field[i][k], "the exact field text (D replaced by E) reaches the converter");
         }
 #endif
